@@ -40,6 +40,7 @@ type distSpec struct {
 	a, b    float64 // uniform: [a,b)   normal: mean a, sigma b
 	init    func(shape []int) (tensor.Tensor, error)
 	tracked bool
+	fan     int // fan-based initializers: the fan total (fanIn, or fanIn + fanOut)
 }
 
 func mustInit[T any](v T, err error) T {
@@ -54,52 +55,52 @@ func c18Specs() []distSpec {
 	T := rt.Conf(true)
 	for _, p := range [][2]float64{{0, 1}, {-3, -1}, {2, 7}, {-0.5, 10}, {1e-3, 2e-3}, {-1, 0}} {
 		p := p
-		out = append(out, distSpec{"RandU", fmt.Sprintf("[%g,%g)", p[0], p[1]), false, p[0], p[1], func(s []int) (tensor.Tensor, error) { return tensor.RandU(s, p[0], p[1], T) }, true})
+		out = append(out, distSpec{"RandU", fmt.Sprintf("[%g,%g)", p[0], p[1]), false, p[0], p[1], func(s []int) (tensor.Tensor, error) { return tensor.RandU(s, p[0], p[1], T) }, true, 0})
 	}
-	out = append(out, distSpec{"RandU(untracked conf)", "[0,1)", false, 0, 1, func(s []int) (tensor.Tensor, error) { return tensor.RandU(s, 0, 1, nil) }, false})
+	out = append(out, distSpec{"RandU(untracked conf)", "[0,1)", false, 0, 1, func(s []int) (tensor.Tensor, error) { return tensor.RandU(s, 0, 1, nil) }, false, 0})
 	for _, p := range [][2]float64{{0, 1}, {5, 0.1}, {-2, 3}, {100, 25}, {0, 1e200}, {0, 1e-180}} {
 		p := p
-		out = append(out, distSpec{"RandN", fmt.Sprintf("mean %g sigma %g", p[0], p[1]), true, p[0], p[1], func(s []int) (tensor.Tensor, error) { return tensor.RandN(s, p[0], p[1], T) }, true})
+		out = append(out, distSpec{"RandN", fmt.Sprintf("mean %g sigma %g", p[0], p[1]), true, p[0], p[1], func(s []int) (tensor.Tensor, error) { return tensor.RandN(s, p[0], p[1], T) }, true, 0})
 	}
 	// every config struct is overwritten with different (valid) values right after construction:
 	// an initializer must keep what it was configured with, not a reference to the caller's struct
 	u0 := mustInit(initializers.NewUniform(nil))
-	out = append(out, distSpec{"Uniform", "nil config", false, -0.05, 0.05, u0.Init, true})
+	out = append(out, distSpec{"Uniform", "nil config", false, -0.05, 0.05, u0.Init, true, 0})
 	for _, p := range [][2]float64{{-1, 4}, {0.25, 0.75}, {-7, -6.5}, {0, 1}, {-2, 0}, {0, 1e-3}, {-0.05, 0.5}, {-1e300, 1e300}, {0, 1e-300}} {
 		uc := &initializers.UniformConfig{Lower: p[0], Upper: p[1]}
 		u := mustInit(initializers.NewUniform(uc))
 		uc.Lower, uc.Upper = 100, 200
-		out = append(out, distSpec{"Uniform", fmt.Sprintf("[%g,%g)", p[0], p[1]), false, p[0], p[1], u.Init, true})
+		out = append(out, distSpec{"Uniform", fmt.Sprintf("[%g,%g)", p[0], p[1]), false, p[0], p[1], u.Init, true, 0})
 	}
 	n0 := mustInit(initializers.NewNormal(nil))
-	out = append(out, distSpec{"Normal", "nil config", true, 0, 0.05, n0.Init, true})
+	out = append(out, distSpec{"Normal", "nil config", true, 0, 0.05, n0.Init, true, 0})
 	for _, p := range [][2]float64{{1, 2}, {-3, 0.5}, {0, 10}, {0, 0.05}, {2, 0.05}, {0, 1}, {0, 1e-170}, {0, 1e160}, {0, 1e-200}, {1e150, 1e150}} {
 		nc := &initializers.NormalConfig{Mean: p[0], StdDev: p[1]}
 		n := mustInit(initializers.NewNormal(nc))
 		nc.Mean, nc.StdDev = -50, 7
-		out = append(out, distSpec{"Normal", fmt.Sprintf("mean %g sigma %g", p[0], p[1]), true, p[0], p[1], n.Init, true})
+		out = append(out, distSpec{"Normal", fmt.Sprintf("mean %g sigma %g", p[0], p[1]), true, p[0], p[1], n.Init, true, 0})
 	}
 	for _, f := range []int{1, 2, 3, 7, 50} {
 		r := math.Sqrt(6 / float64(f))
 		huc := &initializers.HeUniformConfig{FanIn: f}
 		hu := mustInit(initializers.NewHeUniform(huc))
 		huc.FanIn = 1000
-		out = append(out, distSpec{"HeUniform", fmt.Sprintf("fanIn %d", f), false, -r, r, hu.Init, true})
+		out = append(out, distSpec{"HeUniform", fmt.Sprintf("fanIn %d", f), false, -r, r, hu.Init, true, f})
 		hnc := &initializers.HeNormalConfig{FanIn: f}
 		hn := mustInit(initializers.NewHeNormal(hnc))
 		hnc.FanIn = 1000
-		out = append(out, distSpec{"HeNormal", fmt.Sprintf("fanIn %d", f), true, 0, math.Sqrt(2 / float64(f)), hn.Init, true})
+		out = append(out, distSpec{"HeNormal", fmt.Sprintf("fanIn %d", f), true, 0, math.Sqrt(2 / float64(f)), hn.Init, true, f})
 	}
 	for _, f := range [][2]int{{1, 1}, {2, 1}, {2, 3}, {5, 8}, {16, 4}, {101, 100}} {
 		r := math.Sqrt(6 / float64(f[0]+f[1]))
 		xuc := &initializers.XavierUniformConfig{FanIn: f[0], FanOut: f[1]}
 		xu := mustInit(initializers.NewXavierUniform(xuc))
 		xuc.FanIn, xuc.FanOut = 999, 999
-		out = append(out, distSpec{"XavierUniform", fmt.Sprintf("fanIn %d fanOut %d", f[0], f[1]), false, -r, r, xu.Init, true})
+		out = append(out, distSpec{"XavierUniform", fmt.Sprintf("fanIn %d fanOut %d", f[0], f[1]), false, -r, r, xu.Init, true, f[0] + f[1]})
 		xnc := &initializers.XavierNormalConfig{FanIn: f[0], FanOut: f[1]}
 		xn := mustInit(initializers.NewXavierNormal(xnc))
 		xnc.FanIn, xnc.FanOut = 999, 999
-		out = append(out, distSpec{"XavierNormal", fmt.Sprintf("fanIn %d fanOut %d", f[0], f[1]), true, 0, math.Sqrt(2 / float64(f[0]+f[1])), xn.Init, true})
+		out = append(out, distSpec{"XavierNormal", fmt.Sprintf("fanIn %d fanOut %d", f[0], f[1]), true, 0, math.Sqrt(2 / float64(f[0]+f[1])), xn.Init, true, f[0] + f[1]})
 	}
 	return out
 }
@@ -197,11 +198,81 @@ func runC18(c *fw.Ctx) {
 		c.Case(func(k *fw.K) { c18Dist(k, d, target) })
 	}
 	c.Case(func(k *fw.K) { c18Full(k) })
+	c.Case(func(k *fw.K) { c18Reconstruct(k) })
 	// large tensors: freshness inside one tensor (no repeated blocks / rows), moments, support
 	for _, d := range c18Specs() {
 		if d.params == "nil config" || d.params == "[0,1)" || d.params == "mean 0 sigma 1" || d.params == "fanIn 3" || d.params == "fanIn 2 fanOut 3" {
 			d := d
 			c.Case(func(k *fw.K) { c18Large(k, d, c.Quick()) })
+		}
+	}
+}
+
+// c18Reconstruct: model code builds its initializers layer by layer - construct, Init, construct, Init ... within the same
+// instant. Constructing an initializer must not rewind the stream of draws: consecutive results are fresh.
+func c18Reconstruct(k *fw.K) {
+	xrand.Seed(uint64(k.Rng.Int63()))
+	k.Case = map[string]any{"scenario": "construct an initializer, Init, construct the same kind again, Init: the two results must differ"}
+	k.Key("reconstruct")
+	shape := []int{4, 6}
+	kinds := map[string]func() (func([]int) (tensor.Tensor, error), error){
+		"Uniform": func() (func([]int) (tensor.Tensor, error), error) {
+			i, err := initializers.NewUniform(&initializers.UniformConfig{Lower: -1, Upper: 1})
+			return i.Init, err
+		},
+		"Normal": func() (func([]int) (tensor.Tensor, error), error) {
+			i, err := initializers.NewNormal(&initializers.NormalConfig{Mean: 0, StdDev: 1})
+			return i.Init, err
+		},
+		"HeNormal": func() (func([]int) (tensor.Tensor, error), error) {
+			i, err := initializers.NewHeNormal(&initializers.HeNormalConfig{FanIn: 8})
+			return i.Init, err
+		},
+		"HeUniform": func() (func([]int) (tensor.Tensor, error), error) {
+			i, err := initializers.NewHeUniform(&initializers.HeUniformConfig{FanIn: 8})
+			return i.Init, err
+		},
+		"XavierNormal": func() (func([]int) (tensor.Tensor, error), error) {
+			i, err := initializers.NewXavierNormal(&initializers.XavierNormalConfig{FanIn: 3, FanOut: 5})
+			return i.Init, err
+		},
+		"XavierUniform": func() (func([]int) (tensor.Tensor, error), error) {
+			i, err := initializers.NewXavierUniform(&initializers.XavierUniformConfig{FanIn: 3, FanOut: 5})
+			return i.Init, err
+		},
+	}
+	for name, mk := range kinds {
+		var prev []*ref.T
+		for round := 0; round < 6; round++ {
+			init, err := mk()
+			if err != nil {
+				k.Failf("New%s: %v", name, err)
+				return
+			}
+			t, err := init(ref.CopyInts(shape))
+			if err != nil {
+				k.Failf("%s.Init: %v", name, err)
+				return
+			}
+			x, err := rt.Read(t)
+			if err != nil {
+				k.Failf("%s.Init: %v", name, err)
+				return
+			}
+			for pi, p := range prev {
+				same := 0
+				for i := range x.Data {
+					if x.Data[i] == p.Data[i] {
+						same++
+					}
+				}
+				if same > 2 {
+					k.Failf("%s: constructing a new initializer and calling Init replayed earlier draws: result %d equals result %d in %d of %d elements", name, round+1, pi+1, same, len(x.Data))
+					return
+				}
+			}
+			prev = append(prev, x)
+			k.Count("init_calls", 1)
 		}
 	}
 }
@@ -263,10 +334,34 @@ func c18Dist(k *fw.K, d distSpec, target int) {
 		func(s []int) (tensor.Tensor, error) { return tensor.RandN(s, 1000, 500, nil) },
 		func(s []int) (tensor.Tensor, error) { return tensor.RandU(s, -1e4, 1e4, nil) },
 	}
+	if d.fan > 0 { // the other fan-based kinds with the SAME fan total draw in between (a scale cached per fan would be shared)
+		f := d.fan
+		add := func(in func(s []int) (tensor.Tensor, error)) { disturbers = append(disturbers, in) }
+		add(mustInit(initializers.NewHeUniform(&initializers.HeUniformConfig{FanIn: f})).Init)
+		add(mustInit(initializers.NewHeNormal(&initializers.HeNormalConfig{FanIn: f})).Init)
+		if f >= 2 {
+			add(mustInit(initializers.NewXavierUniform(&initializers.XavierUniformConfig{FanIn: 1, FanOut: f - 1})).Init)
+			add(mustInit(initializers.NewXavierNormal(&initializers.XavierNormalConfig{FanIn: f - 1, FanOut: 1})).Init)
+		}
+	}
+	if d.fan > 0 { // ... and they draw FIRST, the kinds of the other family (uniform vs normal) before anything else in this case
+		order := []int{2, 4, 3, 5} // HeUniform, XavierUniform, HeNormal, XavierNormal
+		if !d.normal {
+			order = []int{3, 5, 2, 4}
+		}
+		for _, di := range order {
+			if di < len(disturbers) {
+				if _, err := disturbers[di]([]int{2, 3}); err != nil {
+					k.Failf("disturber call failed: %v", err)
+					return
+				}
+			}
+		}
+	}
 	for len(all) < target {
 		shape := c18Shapes[(calls*5+calls/len(c18Shapes))%len(c18Shapes)]
 		// a disturber call of odd or even size in between
-		if _, err := disturbers[calls%2](c18Shapes[(calls*3)%len(c18Shapes)]); err != nil {
+		if _, err := disturbers[calls%len(disturbers)](c18Shapes[(calls*3)%len(c18Shapes)]); err != nil {
 			k.Failf("disturber call failed: %v", err)
 			return
 		}
